@@ -10,6 +10,7 @@ Section / segment level (all images, all stream states):
 Whole-load level: see the end of the file.
 -/
 import ElfioVerif.Lemmas.LoadSpec
+import ElfioVerif.Props.C02
 set_option linter.unusedSimpArgs false
 set_option linter.unusedVariables false
 namespace ElfioVerif.C15
@@ -398,6 +399,104 @@ theorem seg_interleaving_eq (c : Cls) (enc : Enc) (tr : List Trans) (ls ls1 : Lo
   rw [← h2]
   exact segGetData_lazy_eq_eager c enc tr ls ls hdrOff rfl rfl
 
+/-! ### address translation: read level -/
+
+/-- the byte range `[off, off+n)` of the plain image is *represented* in the container: the
+    translation of `off` is a position of the container at which the same `n` bytes sit -/
+def RangeRep (cont : Bytes) (table : List Trans) (img : Bytes) (off n : Nat) : Prop :=
+  0 ≤ trApply table (Int.ofNat off) ∧
+  (trApply table (Int.ofNat off)).toNat + n ≤ cont.length ∧
+  off + n ≤ img.length ∧
+  slice cont (trApply table (Int.ofNat off)).toNat n = slice img off n
+
+/-- a range that lies inside one table entry whose image in the container equals the plain bytes
+    is represented (this is how `Represents` is established for a concrete container) -/
+theorem rangeRep_of_entry (cont : Bytes) (table : List Trans) (img : Bytes) (e : Trans) (off n : Nat)
+    (hne : table ≠ [])
+    (hfind : table.find? (fun e => decide (e.start ≤ Int.ofNat off) && decide (Int.ofNat off - e.start < e.size)) = some e)
+    (hs : 0 ≤ e.start) (hm : 0 ≤ e.mappedTo)
+    (hin : Int.ofNat off + Int.ofNat n ≤ e.start + e.size)
+    (hc : e.mappedTo.toNat + e.size.toNat ≤ cont.length) (hi : e.start.toNat + e.size.toNat ≤ img.length)
+    (heq : slice cont e.mappedTo.toNat e.size.toNat = slice img e.start.toNat e.size.toNat) :
+    RangeRep cont table img off n := by
+  have hp := List.find?_some hfind
+  simp only [Bool.and_eq_true, decide_eq_true_eq] at hp
+  obtain ⟨hp1, hp2⟩ := hp
+  have ht : trApply table (Int.ofNat off) = Int.ofNat off - e.start + e.mappedTo := by
+    unfold trApply
+    cases table with
+    | nil => exact absurd rfl hne
+    | cons a l => simp only [hfind]
+  rw [RangeRep, ht]
+  simp only [Int.ofNat_eq_natCast] at *
+  have hsz : 0 ≤ e.size := by omega
+  have e1 : ((off : Int) - e.start + e.mappedTo).toNat = e.mappedTo.toNat + (off - e.start.toNat) := by omega
+  have hoff : e.start.toNat ≤ off := by omega
+  refine ⟨by omega, by omega, by omega, ?_⟩
+  rw [e1]
+  have h1 : slice cont (e.mappedTo.toNat + (off - e.start.toNat)) n =
+      slice (slice cont e.mappedTo.toNat e.size.toNat) (off - e.start.toNat) n :=
+    (C02.slice_slice cont _ _ _ _ (by omega)).symm
+  have h2 : slice img off n = slice (slice img e.start.toNat e.size.toNat) (off - e.start.toNat) n := by
+    rw [C02.slice_slice img _ _ _ _ (by omega)]
+    congr 1; omega
+  rw [h1, h2, heq]
+
+/-- with an empty table every range of the image represents itself -/
+theorem rangeRep_nil (img : Bytes) (off n : Nat) (h : off + n ≤ img.length) : RangeRep img [] img off n := by
+  refine ⟨by simp [trApply], by simpa [trApply] using h, h, by simp [trApply]⟩
+
+theorem secOff_toNat (table : List Trans) (offset : BitVec 64) (h63 : offset.toNat < 9223372036854775808)
+    (h0 : 0 ≤ trApply table (Int.ofNat offset.toNat))
+    (hlt : (trApply table (Int.ofNat offset.toNat)).toNat < 9223372036854775808) :
+    (secOff table offset).toNat = (trApply table (Int.ofNat offset.toNat)).toNat := by
+  unfold secOff
+  rw [toInt_of_lt offset h63, BitVec.toNat_ofInt]
+  simp only [Nat.reducePow, Int.ofNat_eq_natCast] at *
+  omega
+
+/-- **translated read = plain read** : the loader's data read on the container, at the translated
+    position, delivers exactly the bytes (and the completeness flag) the plain read delivers on the
+    plain image — for streams in any position / error state -/
+theorem translated_read_eq (cont img : Bytes) (table : List Trans) (sc si : IStream)
+    (hsc : sc.data = cont) (hsi : si.data = img) (offset n : BitVec 64)
+    (hc63 : cont.length < 9223372036854775808) (hi63 : img.length < 9223372036854775808)
+    (hrep : RangeRep cont table img offset.toNat n.toNat) :
+    (isolatedRead sc (secOff table offset) n).2 = (isolatedRead si offset n).2 ∧
+    (isolatedRead si offset n).2 = (slice img offset.toNat n.toNat, true) := by
+  obtain ⟨h0, h1, h2, h3⟩ := hrep
+  have hto := secOff_toNat table offset (by omega) h0 (by omega)
+  subst hsc; subst hsi
+  rw [isolatedRead_ok sc (secOff table offset) n (by rw [hto]; exact h1) hc63,
+    isolatedRead_ok si offset n h2 hi63]
+  simp only [hto, h3, and_self]
+
+/-- the same for the header-record reads (`seekg(translate(pos)); read`) on a good stream -/
+theorem translated_hdrRead_eq (cont img : Bytes) (table : List Trans) (sc si : IStream)
+    (hne : table ≠ [])
+    (hsc : sc.data = cont) (hsi : si.data = img) (hce : sc.eof = false) (hcf : sc.fail = false)
+    (hie : si.eof = false) (hif : si.fail = false) (k n : Nat)
+    (hrep : RangeRep cont table img k n) :
+    (hdrRead table sc (Int.ofNat k) n).2.1 = (hdrRead [] si (Int.ofNat k) n).2.1 ∧
+    (hdrRead table sc (Int.ofNat k) n).1.gcount = n ∧ (hdrRead [] si (Int.ofNat k) n).1.gcount = n ∧
+    (hdrRead table sc (Int.ofNat k) n).1.eof = false ∧ (hdrRead table sc (Int.ofNat k) n).1.fail = false := by
+  obtain ⟨h0, h1, h2, h3⟩ := hrep
+  subst hsc; subst hsi
+  rw [hdrRead_inside si hie hif k n h2]
+  have hss : streamSizeOf table sc = (sc, u64max) := by
+    unfold streamSizeOf
+    cases table with
+    | nil => exact absurd rfl hne
+    | cons a l => rfl
+  unfold hdrRead
+  rw [hss]
+  simp only []
+  rw [IStream.seekg_ok sc hcf _ h0 (by omega),
+    IStream.read_ok { sc with pos := (trApply table (Int.ofNat k)).toNat, eof := false } rfl hcf n h1]
+  simp only [Int.ofNat_eq_natCast] at *
+  simp [h3, hcf]
+
+
 /-! ### whole load: the open finding F15 -/
 
 def loadOk (r : M LoadRes) : Option Bool :=
@@ -415,5 +514,87 @@ theorem lazy_load_unreadable_segment_witness :
     loadOk (load {} { data := f15Image } false) = some false ∧
     loadOk (load {} { data := f15Image } true) = some true := by
   decide +kernel
+
+/-! ### whole load, well-formed images -/
+
+/-- header fields and name of a section as the getters return them -/
+def secFields (b : SecBuf) :=
+  (b.index, b.name, b.nameOff, b.stype, b.flags, b.addr, b.offset, b.size, b.link, b.info, b.addrAlign, b.entSize)
+def segFields (g : Seg) :=
+  (g.index, g.stype, g.flags, g.offset, g.vaddr, g.paddr, g.filesz, g.memsz, g.align, g.secs)
+/-- the bytes `get_data()` exposes in `[0, get_size())` when asked on stream `ls` -/
+def secView (c : Cls) (tr : List Trans) (ls : LoadSt) (b : SecBuf) : Bytes :=
+  ((secGetData c tr ls b).2.data.getD []).take (secGetData c tr ls b).2.size.toNat
+def segView (c : Cls) (tr : List Trans) (ls : LoadSt) (g : Seg) : Bytes :=
+  ((segGetData c tr ls g).2.data.getD []).take g.filesz.toNat
+
+/-- two loaded objects show the same things (data requested on any streams over the same image) -/
+def ViewEq (img : Bytes) (a b : Obj) : Prop :=
+  a.cls = b.cls ∧ a.enc = b.enc ∧ a.hdr = b.hdr ∧
+  a.secs.length = b.secs.length ∧ a.segs.length = b.segs.length ∧
+  (∀ i (h1 : i < a.secs.length) (h2 : i < b.secs.length),
+    secFields a.secs[i] = secFields b.secs[i] ∧
+    ∀ ls1 ls2 : LoadSt, ls1.st.data = img → ls2.st.data = img →
+      secView a.cls [] ls1 a.secs[i] = secView b.cls [] ls2 b.secs[i]) ∧
+  (∀ j (h1 : j < a.segs.length) (h2 : j < b.segs.length),
+    segFields a.segs[j] = segFields b.segs[j] ∧
+    ∀ ls1 ls2 : LoadSt, ls1.st.data = img → ls2.st.data = img →
+      segView a.cls [] ls1 a.segs[j] = segView b.cls [] ls2 b.segs[j])
+
+theorem bv_eq {n} {x y : BitVec n} {k : Nat} (h1 : x.toNat = k) (h2 : y.toNat = k) : x = y :=
+  BitVec.eq_of_toNat_eq (h1.trans h2.symm)
+
+theorem map_toNat_inj : ∀ (l1 l2 : List (BitVec 16)), l1.map (·.toNat) = l2.map (·.toNat) → l1 = l2
+  | [], [], _ => rfl
+  | [], _ :: _, h => by simp at h
+  | _ :: _, [], h => by simp at h
+  | a :: l1, b :: l2, h => by
+    simp only [List.map_cons, List.cons.injEq] at h
+    rw [BitVec.eq_of_toNat_eq h.1, map_toNat_inj l1 l2 h.2]
+
+/-- two objects that both show what the specification says show the same -/
+theorem viewEq_of_spec (img : Bytes) (ra rb : LoadRes) (ha : C02.LoadSpec img ra) (hb : C02.LoadSpec img rb) :
+    ra.ok = rb.ok ∧ ViewEq img ra.obj rb.obj := by
+  obtain ⟨a1, a2, a3, ⟨ah, a4, a5⟩, _, _, _, a6, a7, a8, a9⟩ := ha
+  obtain ⟨b1, b2, b3, ⟨bh, b4, b5⟩, _, _, _, b6, b7, b8, b9⟩ := hb
+  refine ⟨by rw [a1, b1], by rw [a2, b2], by rw [a3, b3], by rw [a4, b4, a5.1, b5.1], by rw [a6, b6],
+    by rw [a8, b8], ?_, ?_⟩
+  · intro i h1 h2
+    obtain ⟨x0, x1, x2, x3, x4, x5, x6, x7, x8, x9, x10, x11, x12⟩ := a7 i h1
+    obtain ⟨y0, y1, y2, y3, y4, y5, y6, y7, y8, y9, y10, y11, y12⟩ := b7 i h2
+    refine ⟨?_, ?_⟩
+    · simp only [secFields, Prod.mk.injEq]
+      exact ⟨by rw [x0, y0], by rw [x11, y11], bv_eq x1 y1, bv_eq x2 y2, bv_eq x3 y3, bv_eq x4 y4, bv_eq x5 y5,
+        bv_eq x6 y6, bv_eq x7 y7, bv_eq x8 y8, bv_eq x9 y9, bv_eq x10 y10⟩
+    · intro ls1 ls2 h1 h2
+      unfold secView
+      rw [a2, b2, x12 ls1 h1, y12 ls2 h2]
+  · intro j h1 h2
+    obtain ⟨x0, x1, x2, x3, x4, x5, x6, x7, x8, x9, x10⟩ := a9 j h1
+    obtain ⟨y0, y1, y2, y3, y4, y5, y6, y7, y8, y9, y10⟩ := b9 j h2
+    refine ⟨?_, ?_⟩
+    · simp only [segFields, Prod.mk.injEq]
+      refine ⟨by rw [x0, y0], bv_eq x1 y1, bv_eq x2 y2, bv_eq x3 y3, bv_eq x4 y4, bv_eq x5 y5, bv_eq x6 y6,
+        bv_eq x7 y7, bv_eq x8 y8, ?_⟩
+      have := x9.trans y9.symm
+      exact map_toNat_inj _ _ this
+    · intro ls1 ls2 h1 h2
+      unfold segView
+      rw [a2, b2, x10 ls1 h1, y10 ls2 h2]
+
+/-- **lazy = eager, well-formed images** : both loads succeed and show the same header, the same
+    section / segment fields, names and members, and the same data whenever and on whatever stream
+    state the data is requested (composition of C02 `load_eq_spec` for both modes) -/
+theorem lazy_eq_eager_wf (img : Bytes) (o : Obj) (k : StreamKind) (htr : o.trans = [])
+    (hwf : C02.WellFormedImage img) :
+    ∃ rl re : LoadRes, load o { data := img, kind := k } true = .ok rl ∧
+      load o { data := img, kind := k } false = .ok re ∧ rl.ok = re.ok ∧ ViewEq img rl.obj re.obj := by
+  obtain ⟨rl, h1, s1⟩ := C02.load_eq_spec img o k true htr hwf
+  obtain ⟨re, h2, s2⟩ := C02.load_eq_spec img o k false htr hwf
+  exact ⟨rl, re, h1, h2, viewEq_of_spec img rl re s1 s2⟩
+
+example : ∃ rl re : LoadRes, load {} { data := C02.wfImage } true = .ok rl ∧
+    load {} { data := C02.wfImage } false = .ok re ∧ rl.ok = re.ok ∧ ViewEq C02.wfImage rl.obj re.obj :=
+  lazy_eq_eager_wf C02.wfImage {} .str rfl (by decide +kernel)
 
 end ElfioVerif.C15
